@@ -221,7 +221,7 @@ def opHmac (alg k t : String) : String :=
 
 def opPbkdf2 (p s c dk : String) : String :=
   match (argBytes p).bind id, (argBytes s).bind id, c.toNat?, dk.toNat? with
-  | some p, some s, some c, some dk => s!"d={showBytes (Yes.pbkdf2Sha256 p s c dk)}"
+  | some p, some s, some c, some dk => s!"d={showBytes (Yes.pbkdf2Impl p s c dk)}"
   | _, _, _, _ => "bad-op"
 
 def opDesBlock (k salt count b dec : String) : String :=
